@@ -376,7 +376,8 @@ func init() {
 						}
 					}
 				}
-				if perr == nil && !hijacked && len(codes) != (len(obs)-nDispBefore)+nonDispatchResponses && respNote == "" {
+				_ = hijacked // a hijacking request is answered (its response is written before the hijack handler starts)
+				if perr == nil && len(codes) != (len(obs)-nDispBefore)+nonDispatchResponses && respNote == "" {
 					respNote = fmt.Sprintf("connection %q: %d final responses %v on the wire but %d handler calls (+%d error/417 responses expected)", stream, len(codes), codes, len(obs)-nDispBefore, nonDispatchResponses)
 				}
 			}
@@ -508,6 +509,13 @@ func init() {
 							qs = append(qs, "sc=404", "body=gone")
 						case 4, 5, 6:
 							qs = append(qs, "nd=1")
+						case 7:
+							qs = append(qs, "hjnr=1") // HijackSetNoResponse(true) without Hijack: must not reach a later request
+						case 8:
+							if r.Chance(50) {
+								special = "hj"
+								qs = append(qs, "hj=1") // hijacks with the default behaviour: its response is written first
+							}
 						}
 						malformed, expect := "0", "0"
 						if r.Chance(4) {
